@@ -160,7 +160,23 @@ def impl(case):
             dyce.rng.RNG = saved
         return " | ".join(outs)
     if k == "acc":
-        return _fmt(h.accumulate(C.dec_h(case["b"])), table)
+        b = C.dec_h(case["b"])
+        form = case.get("bform", "h")
+        if form == "dict":
+            other = dict(b.items())
+        elif form == "pairs":
+            other = list(b.items())
+        elif form == "iterpairs":
+            other = iter(list(b.items()))
+        elif form == "counter":
+            other = Counter(dict(b.items()))
+        elif form == "p" and b.total:
+            from dyce import P
+
+            other = P(b)  # a pool is accumulated as its histogram
+        else:
+            other = b
+        return _fmt(h.accumulate(other), table)
     if k == "zfill":
         return _fmt(h.zero_fill(_iterable([C.dec_out(o) for o in case["outs"]], case.get("itype", "list"))), table)
     if k == "remove":
@@ -313,7 +329,7 @@ def generate(rnd, tier, scale):
         elif r < 0.62:
             yield dict(k="draw_noarg", h=h)
         elif r < 0.75:
-            yield dict(k="acc", h=h, b=rnd.choice(cat) if rnd.random() < 0.3 else gen.rand_h(rnd, 4, kind, allow_zero_total=True))
+            yield dict(k="acc", h=h, b=rnd.choice(cat) if rnd.random() < 0.3 else gen.rand_h(rnd, 4, kind, allow_zero_total=True), bform=rnd.choice(["h", "h", "dict", "pairs", "iterpairs", "counter", "p", "p"]))
         elif r < 0.87:
             yield dict(k="zfill", h=h, outs=[rnd.choice(outs + ["i:0", "i:7", "i:-3", "f:2.0"]) for _ in range(rnd.randint(0, 4))], itype=rnd.choice(["list", "list", "iter", "gen", "deque"]))
         else:
